@@ -21,11 +21,12 @@ Open Scope list_scope.
    the attribute of the same name: C18_sax_style_precedence) ---- *)
 Theorem C18_wsvg_roundtrip : forall c ds attrs svgattrs size,
     length attrs = length ds ->
-    (* svg2paths: when no path is the empty one (svgwrite leaves the d attribute
-       of an empty path out, and svg2paths reads el['d']:
-       C18_wsvg_empty_path_refuted) *)
-    (noempty ds ->
-     svg2paths_read (wsvg_file ds attrs svgattrs size) = Some (ds, written ds attrs))
+    (* svg2paths: EVERY list under the repaired variant (f_nod_empty: a path
+       element without d reads as the empty path); under the pinned variant
+       when no path is the empty one (svgwrite leaves the d attribute of an empty
+       path out, and svg2paths read el['d']: C18_wsvg_empty_path_refuted) *)
+    ((f_nod_empty c = true \/ noempty ds) ->
+     svg2paths_read c (wsvg_file ds attrs svgattrs size) = Some (ds, written ds attrs))
     (* Document(file).paths(): every list, the empty path included *)
     /\ doc_read (wsvg_file ds attrs svgattrs size) = (ds, written ds attrs)
     (* SaxDocument(file) *)
@@ -67,9 +68,9 @@ Section PathLevel.
 
   Theorem C18_wsvg_roundtrip_partial : forall c ps attrs svgattrs size,
       length attrs = length ps ->
-      (noempty (map dstr ps) ->
+      ((f_nod_empty c = true \/ noempty (map dstr ps)) ->
        option_map (fun r => map parse (fst r))
-                  (svg2paths_read (wsvg_file (map dstr ps) attrs svgattrs size)) = Some ps)
+                  (svg2paths_read c (wsvg_file (map dstr ps) attrs svgattrs size)) = Some ps)
       /\ map parse (fst (doc_read (wsvg_file (map dstr ps) attrs svgattrs size))) = ps
       /\ (noempty (map dstr ps) -> nostyle svgattrs -> nostyle size -> Forall nostyle attrs ->
           option_map (fun r => map parse (fst r))
@@ -80,19 +81,21 @@ Section PathLevel.
     assert (E : map parse (map dstr ps) = ps).
     { rewrite map_map. erewrite map_ext; [apply map_id|]. exact parse_d. }
     split; [|split].
-    - intros Hn. rewrite (wsvg_svg2paths _ _ sa size H' Hn). cbn [option_map fst]. rewrite E. reflexivity.
+    - intros Hn. rewrite (wsvg_svg2paths c _ _ sa size H' Hn). cbn [option_map fst]. rewrite E. reflexivity.
     - rewrite (wsvg_document _ _ sa size H'). cbn [fst]. exact E.
     - intros Hn H1 H2 H3. destruct (wsvg_sax c _ _ sa size H' Hn H1 H2 H3) as (rv & Hr & _).
       rewrite Hr. cbn [option_map fst]. rewrite E. reflexivity.
   Qed.
 End PathLevel.
 
-(* the empty path: svgwrite writes <path id=.../> without d; svg2paths raises
-   KeyError('d') on the whole file (finding svg2paths-path-without-d-keyerror),
-   Document and SaxDocument return the three paths *)
+(* the empty path: svgwrite writes <path id=.../> without d; the pinned svg2paths
+   raises KeyError('d') on the whole file (finding
+   svg2paths-path-without-d-keyerror), Document and SaxDocument return the three
+   paths; the repaired svg2paths returns them too *)
 Example C18_wsvg_empty_path_refuted :
   let f := wsvg_file ["M 0,0 L 1,1"; ""; "M 2,2 L 3,3"] [[("id", "a")]; [("id", "b")]; [("id", "c")]] [] [] in
-  svg2paths_read f = None
+  svg2paths_read pinned f = None
+  /\ option_map fst (svg2paths_read repaired f) = Some ["M 0,0 L 1,1"; ""; "M 2,2 L 3,3"]
   /\ fst (doc_read f) = ["M 0,0 L 1,1"; ""; "M 2,2 L 3,3"]
   /\ option_map fst (sax_read pinned f) = Some ["M 0,0 L 1,1"; ""; "M 2,2 L 3,3"].
 Proof. vm_compute. repeat split. Qed.
@@ -100,7 +103,7 @@ Proof. vm_compute. repeat split. Qed.
 Example C18_doc_empty_path :
   let t := run repaired [OpAddPath "M 0,0 L 1,1" [("id", "a")] []; OpAddPath "" [("id", "b")] [];
                          OpAddPath "M 2,2 L 3,3" [("id", "c")] []] (empty_document repaired) in
-  option_map fst (svg2paths_read (et_write repaired t)) = Some ["M 0,0 L 1,1"; ""; "M 2,2 L 3,3"]
+  option_map fst (svg2paths_read repaired (et_write repaired t)) = Some ["M 0,0 L 1,1"; ""; "M 2,2 L 3,3"]
   /\ fst (doc_read (et_write repaired t)) = ["M 0,0 L 1,1"; ""; "M 2,2 L 3,3"]
   /\ option_map fst (sax_read repaired (et_write repaired t)) = Some ["M 0,0 L 1,1"; ""; "M 2,2 L 3,3"].
 Proof. vm_compute. repeat split. Qed.
@@ -220,7 +223,7 @@ Proof. exact saved_svg2paths. Qed.
 Definition loaded : xel := XE SVGNS "svg" [] [XE SVGNS "path" [("d", "M0,0 L1,1")] []].
 Definition after (c : cfg) : xel := run c [OpAddPath "M5,5 L6,6" [] []] loaded.
 Example C18_doc_save_svg2paths_refuted :
-  option_map fst (svg2paths_read (et_write pinned (after pinned))) = Some ["M5,5 L6,6"]
+  option_map fst (svg2paths_read pinned (et_write pinned (after pinned))) = Some ["M5,5 L6,6"]
   /\ fst (doc_read (et_write pinned (after pinned))) = ["M0,0 L1,1"]
   /\ option_map fst (sax_read pinned (et_write pinned (after pinned))) = Some ["M0,0 L1,1"].
 Proof. vm_compute. repeat split. Qed.
@@ -234,7 +237,7 @@ Theorem C18_doc_save_svg2paths : forall c e,
           (filter (fun x => String.eqb (x_local x) "path") (x_preorder e)).
 Proof. exact saved_svg2paths_default. Qed.
 Example C18_doc_save_repaired :
-  option_map fst (svg2paths_read (et_write repaired (after repaired))) = Some ["M0,0 L1,1"; "M5,5 L6,6"]
+  option_map fst (svg2paths_read repaired (et_write repaired (after repaired))) = Some ["M0,0 L1,1"; "M5,5 L6,6"]
   /\ fst (doc_read (et_write repaired (after repaired))) = ["M0,0 L1,1"; "M5,5 L6,6"]
   /\ option_map fst (sax_read repaired (et_write repaired (after repaired))) = Some ["M0,0 L1,1"; "M5,5 L6,6"].
 Proof. vm_compute. repeat split. Qed.
@@ -255,7 +258,7 @@ Proof. exact (fun K N => SvgTreeAlg.sax_dom_matrix_spec N). Qed.
 
 (* non-vacuity *)
 Example C18_nonvacuous :
-  svg2paths_read (wsvg_file ["M 0,0 L 1,1"; "M 2,2 L 3,3"]
+  svg2paths_read pinned (wsvg_file ["M 0,0 L 1,1"; "M 2,2 L 3,3"]
                             [[("id", "a"); ("stroke", "red")]; [("d", "bogus"); ("fill", "none")]]
                             [("viewBox", "0 0 4 4")] [("width", "600px"); ("height", "600px")])
   = Some (["M 0,0 L 1,1"; "M 2,2 L 3,3"],
